@@ -20,8 +20,8 @@ LEVEL = 'model_checking'
 RULE = ('tree over side-extremum positions (every node with >= 2 cycles is a table, evaluated for every epoch length) and '
         'word tree x (epoch length, option kind, method, centring); non-trivial = >= 2 non-empty epochs; distinct = '
         'distinct (input, per-epoch row sets)')
-ASSUMPTIONS = ['a closing extremum exactly on an epoch boundary may sit in either adjacent epoch (statement and anchored '
-               'mechanism disagree there); exactly-once, order and the shift are still enforced',
+ASSUMPTIONS = ['"the epoch containing its closing side extremum" is read as the anchored mechanism states it: epoch e holds the cycles '
+               'whose closing extremum c satisfies e*E < c <= (e+1)*E (half-open (first, last]), also when c lies exactly on a border',
                'the flattened analysis itself is trusted here (it is decided by C01-C07)']
 
 
@@ -80,7 +80,7 @@ class EpochTables(Space):
                         j = int(o['volt_amp'].iloc[pos]) - 1
                         seen.append(j)
                         c = closing[j]
-                        okslot = (e * E < c <= (e + 1) * E) or (c % E == 0 and e == c // E)
+                        okslot = e * E < c <= (e + 1) * E          # half-open (first, last]: the anchored assignment rule
                         if not okslot:
                             return VIOL(dict(sgn, kind='wrong-epoch'), 'cycle with closing extremum %d placed in epoch %d (length %d)' % (c, e, E),
                                         observed=obs, evals=nev)
@@ -136,7 +136,10 @@ def build_kwargs(kind, method, centre, n):
 
 def eval_word(case):
     from bycycle.group import compute_features_2d
-    letters, (E, kind, method, centre) = case[:-1], case[-1]
+    letters, cfg = case[:-1], case[-1]
+    E, kind, method, centre = cfg[:4]
+    fs = cfg[4] if len(cfg) > 4 else 64             # other declared sampling rates (same samples, band scaled alike)
+    fr = (6, 14) if fs == 64 else (6 * fs / 64, 14 * fs / 64)
     w = ''.join(letters)
     sig = S.word_signal(w)
     if len(sig) % E or (kind == 'none' and (method, centre) != ('cycles', 'peak')) or (kind == 'sparse' and method != 'cycles'):
@@ -147,18 +150,18 @@ def eval_word(case):
         return SKIP('single epoch')
     kw = build_kwargs(kind, method, centre, n)
     try:
-        ref, flags, flat = ref_epoched(sigs, 64, (6, 14), [copy.deepcopy(k) for k in kw] if isinstance(kw, list) else copy.deepcopy(kw))
+        ref, flags, flat = ref_epoched(sigs, fs, fr, [copy.deepcopy(k) for k in kw] if isinstance(kw, list) else copy.deepcopy(kw))
     except Exception:      # noqa
         return SKIP('flattened analysis precondition')
     if len(flat) < 2:
         return SKIP('fewer than 2 cycles')
     sgn = {'site': 'compute_features_2d(axis=None)', 'options': kind, 'method': method}
-    obs = {'word': w, 'epoch_len': E, 'centre': centre}
+    obs = {'word': w, 'epoch_len': E, 'centre': centre, 'fs': fs}
     layout = 'F' if (sum(map(ord, w)) + E + (kind == 'list') + (method == 'amp') + (centre == 'trough')) % 2 else 'C'
     arg = sigs.copy() if layout == 'C' else np.asfortranarray(sigs)      # same values, column-major memory layout
     sgn['layout'] = layout
     try:
-        got = compute_features_2d(arg, 64, (6, 14), kw if kind == 'alias' else copy.deepcopy(kw), axis=None)
+        got = compute_features_2d(arg, fs, fr, kw if kind == 'alias' else copy.deepcopy(kw), axis=None)
     except Exception as e:      # noqa
         return VIOL(dict(sgn, kind='raise', exc=type(e).__name__, empty_epoch=any(len(r) == 0 for r in ref)),
                     'compute_features_2d(axis=None) raised %s: %s' % (type(e).__name__, str(e)[:120]), observed=obs)
@@ -170,8 +173,40 @@ def eval_word(case):
             col = dd.split()[1] if dd.startswith('column ') else '?'
             return VIOL(dict(sgn, kind='epoch-table', col=col if col == 'is_burst' else 'other', epoch0=e == 0),
                         'epoch %d differs from the partition of the flattened analysis: %s' % (e, dd), observed=obs)
-    return OK(outcome=(w, E, kind, method, centre, tuple(table_hash(g) for g in got)),
+    return OK(outcome=(w, E, kind, method, centre, fs, tuple(table_hash(g) for g in got)),
               nontrivial=sum(1 for r in ref if len(r)) >= 2 and (kind in ('none', 'dict') or any(r['is_burst'].any() for r in ref if len(r))))
+
+
+def eval_long_table(case):
+    """epoch_df on a LONG synthetic tiling table (more than 1000 cycles) whose closing extrema fall on, just before and just after
+    epoch borders: every row exactly once, in the epoch its closing extremum lies in, shifted by that epoch's start."""
+    from bycycle.utils import epoch_df
+    n_cyc, period, E, centre = case
+    sides = [1 + period * i + (i * 7) % 3 for i in range(n_cyc + 1)]      # slightly irregular cycle lengths
+    T = sides[-1] + 5
+    df = mk_table(sides, centre)
+    sc = sample_cols(centre)
+    closing = df[sc['next']].tolist()
+    out = epoch_df(df.copy(), T, E)
+    sgn = {'site': 'epoch_df', 'centre': centre, 'long': True}
+    n_ep = -(-T // E)
+    if len(out) != n_ep:
+        return VIOL(dict(sgn, kind='n-epochs'), 'expected %d epochs, got %d' % (n_ep, len(out)))
+    seen = []
+    on_border = 0
+    for e, o in enumerate(out):
+        for pos in range(len(o)):
+            j = int(o['volt_amp'].iloc[pos]) - 1
+            seen.append(j)
+            c = closing[j]
+            on_border += c % E == 0
+            if not (e * E < c <= (e + 1) * E):
+                return VIOL(dict(sgn, kind='wrong-epoch'), 'cycle %d with closing extremum %d placed in epoch %d (length %d)' % (j, c, e, E))
+            if int(o[sc['next']].iloc[pos]) != c - e * E or int(o[sc['centre']].iloc[pos]) != int(df[sc['centre']].iloc[j]) - e * E:
+                return VIOL(dict(sgn, kind='value', sample=True), 'cycle %d in epoch %d: sample columns are not relative to the epoch start' % (j, e))
+    if seen != list(range(len(df))):
+        return VIOL(dict(sgn, kind='partition'), 'rows lost, duplicated or reordered (%d of %d rows returned)' % (len(seen), len(df)))
+    return OK(outcome=(n_cyc, period, E, centre), nontrivial=on_border > 0, evals=1)
 
 
 def spaces(tier, seed):
@@ -184,6 +219,15 @@ def spaces(tier, seed):
                             describe='10-letter words (80 samples) in 2 epochs of 40 samples: epochs long enough (>= 3 cycles) for '
                                      'per-epoch thresholds to change labels', bounds={'configs': len(long_q)}))
     cfg = [c for c in CONFIGS if c[0] in (8, 12, 16) and (c[1] in ('none', 'dict', 'list') or (c[1] == 'alias' and c[0] == 12))]
+    from bcmc.explore import ListSpace
+    lt = [[n, p, E, c] for n in ((40, 1100) if tier == 'quick' else (40, 600, 1100, 2100)) for p in (8, 50) for E in (p_ * k for p_ in (8, 50) for k in (1, 3, 10))
+          for c in ('peak', 'trough')]
+    out.append(ListSpace('epoch_df-long-tables', lt, eval_long_table,
+                         describe='epoch_df on synthetic tables of 40 / 1100 (2100) cycles x cycle length 8 / 50 x 6 epoch lengths x 2 centrings'))
+    rates = [(E, kind, 'cycles', c, fs) for fs in (49, 1017.25, 173.61, 9.8, 250.) for E in (4, 6, 8, 12, 16, 24) for kind, c in (('dict', 'peak'), ('list', 'trough'))]
+    out.append(ProductSpace('W(2,6)-rates-x-epochs', S.word_dims(['a', 'd'], 6) + [rates], eval_word,
+                            describe='6-letter words declared at fs 49 / 1017.25 / 173.61 / 9.8 / 250 Hz x every epoch length dividing 48 samples '
+                                     '(sample-count <-> seconds round trips)'))
     al = S.alphabet(3)
     out.append(ProductSpace('W(3,6)-epoched', S.word_dims(al, 6) + [cfg], eval_word, bounds={'letters': al, 'configs': len(cfg)},
                             describe='all 6-letter words (48 samples) reshaped into epochs of 8/12/16 samples x option kinds x methods x centrings'))
